@@ -5112,6 +5112,13 @@ where
             return Ok(0);
         };
 
+        // Transactional guard (mirrors `insert`): the post-removal flip repair can fail after
+        // the vertex and its star are already gone. Keep a snapshot so that a failed removal
+        // leaves the triangulation unchanged.
+        let repair_policy_enabled =
+            self.insertion_state.delaunay_repair_policy != DelaunayRepairPolicy::Never;
+        let snapshot = repair_policy_enabled.then(|| self.tri.tds.clone());
+
         // Fast path: inverse k=1 flip when the vertex star is a simplex.
         let mut seed_cells: Option<CellKeyBuffer> = None;
         let cells_removed = match apply_bistellar_flip_k1_inverse(
@@ -5139,11 +5146,15 @@ where
         if self.should_run_delaunay_repair_for(topology, 0) {
             let seed_ref = seed_cells.as_deref();
             let (tds, kernel) = (&mut self.tri.tds, &self.tri.kernel);
-            repair_delaunay_with_flips_k2_k3(tds, kernel, seed_ref, topology).map_err(|e| {
-                TdsValidationError::InconsistentDataStructure {
+            if let Err(e) = repair_delaunay_with_flips_k2_k3(tds, kernel, seed_ref, topology) {
+                if let Some(tds_snapshot) = snapshot {
+                    self.tri.tds = tds_snapshot;
+                }
+                return Err(TdsValidationError::InconsistentDataStructure {
                     message: format!("Delaunay repair failed after vertex removal: {e}"),
                 }
-            })?;
+                .into());
+            }
         }
 
         Ok(cells_removed)
